@@ -67,3 +67,9 @@ Fixpoint scan (ld : list (dotted * obj)) (at_ : list ((obj * name) * obj)) (full
 Definition needs_import (s : state) (full : dotted) : bool * list effect :=
   scan (loaded s) (attrs s) full (pairs_of (nss s) full).
 Definition needs (s : state) (full : dotted) : bool := fst (needs_import s full).
+
+(* find_missing_imports(arg, namespaces) when arg is one dotted identifier (the fast path,
+   _autoimp.py:1684-1696):   return [arg] if symbol_needs_import(arg, namespaces) else []
+   The state is threaded only to say that it is returned as given. *)
+Definition find_missing_ident (s : state) (n : dotted) : state * list dotted * list effect :=
+  let (b, t) := needs_import s n in (s, if b then [n] else [], t).
